@@ -5,7 +5,8 @@
   expression come from Buidl.Gen.Merkle, re-extracted from /repo on every run); the specifications
   are Buidl.Spec.Merkle (Bitcoin Core's ComputeMerkleRoot / CPartialMerkleTree / arith_uint256 / pow.cpp).
   `H` (hash256) is an arbitrary function; no injectivity is assumed anywhere: soundness is stated as
-  collision extraction.
+  collision extraction — the colliding pair is exhibited inside two explicit finite lists computed from the
+  inputs (`CollisionBetween`), never claimed to exist among all strings (which would hold vacuously).
 -/
 import Buidl.Proofs.Merkle
 import Buidl.Proofs.Pow
@@ -123,21 +124,28 @@ theorem bip37_complete_tree (H : Bytes → Bytes) (ids : List Bytes) (matched : 
   populate_buildProof H ids matched hne hm (tree_depth_ceil_log2 _ (List.length_pos_iff.mpr hne))
 
 /-- SOUNDNESS with collision extraction: if ANY (flags, hashes) — honest or altered — validates against the
-    Merkle root of `ids` with the true transaction count, then every id it yields is one of the block's
-    ids, or two different byte strings with the same hash256 exist.  Hashes are 32 bytes long. -/
+    Merkle root of `ids` with the true transaction count, then every id it yields is one of the block's ids, or a
+    hash256 collision is EXHIBITED between a string hashed while parsing the proof and a string hashed when
+    computing the block's root (two explicit finite lists, `extractPre` and `calcPre`).  Hashes are 32 bytes long. -/
 theorem bip37_sound (H : Bytes → Bytes) (hH : ∀ b, (H b).length = 32) (ids : List Bytes) (hne : ids ≠ [])
     (hids : ∀ y ∈ ids, y.length = 32) (flagBits : List Bool) (hashes : List Bytes) (hhs : ∀ y ∈ hashes, y.length = 32)
     (r : Bytes) (proved : List Bytes) (h : populate H ids.length flagBits hashes = .done r proved)
     (hr : r = treeRoot H ids) :
-    (∀ t ∈ proved, t.reverse ∈ ids) ∨ Collision H :=
-  populate_sound H hH ids hne (tree_depth_ceil_log2 _ (List.length_pos_iff.mpr hne)) hids flagBits hashes hhs r proved h hr
+    (∀ t ∈ proved, t.reverse ∈ ids) ∨
+      CollisionBetween H (extractPre H (ceilLog2 ids.length) ids.length flagBits hashes) (calcPre H (ceilLog2 ids.length) ids) := by
+  have h0 : 0 < ids.length := List.length_pos_iff.mpr hne
+  have := populate_sound H hH ids hne (tree_depth_ceil_log2 _ h0) hids flagBits hashes hhs r proved h hr
+  rwa [tree_depth_eq_spec _ h0] at this
 
 /-- soundness at the level of MerkleBlock.is_valid / proved_txs (object byte order) -/
 theorem bip37_sound_merkleblock (H : Bytes → Bytes) (hH : ∀ b, (H b).length = 32) (txids : List Bytes) (hne : txids ≠ [])
     (hids : ∀ y ∈ txids, y.length = 32) (hashes : List Bytes) (hhs : ∀ y ∈ hashes, y.length = 32) (flags : Bytes)
     (proved : List Bytes)
     (h : isValid H (treeRoot H (txids.map List.reverse)).reverse txids.length hashes flags = .ok (some (true, proved))) :
-    (∀ t ∈ proved, t ∈ txids) ∨ Collision H := by
+    (∀ t ∈ proved, t ∈ txids) ∨
+      CollisionBetween H
+        (extractPre H (ceilLog2 txids.length) txids.length (bytesToBitField flags) (hashes.map List.reverse))
+        (calcPre H (ceilLog2 txids.length) (txids.map List.reverse)) := by
   unfold isValid at h
   cases hp : populate H txids.length (bytesToBitField flags) (hashes.map List.reverse) with
   | outOfFuel => rw [hp] at h; cases h
@@ -150,8 +158,10 @@ theorem bip37_sound_merkleblock (H : Bytes → Bytes) (hH : ∀ b, (H b).length 
       have := congrArg List.reverse hr; simpa using this
     have hlen : (txids.map List.reverse).length = txids.length := by simp
     rw [← hlen] at hp
-    rcases bip37_sound H hH (txids.map List.reverse) (by simpa using hne) (by simpa using hids)
-        (bytesToBitField flags) (hashes.map List.reverse) (by simpa using hhs) r pv hp hr' with h1 | h2
+    have hs := bip37_sound H hH (txids.map List.reverse) (by simpa using hne) (by simpa using hids)
+        (bytesToBitField flags) (hashes.map List.reverse) (by simpa using hhs) r pv hp hr'
+    rw [hlen] at hs
+    rcases hs with h1 | h2
     · left
       intro t ht
       have := h1 t ht
@@ -161,14 +171,16 @@ theorem bip37_sound_merkleblock (H : Bytes → Bytes) (hH : ∀ b, (H b).length 
     · right; exact h2
 
 /-- ALTERED HASHES: two proofs with the same count and flags that both validate against the same root carry the
-    same hashes, or a hash256 collision is exhibited — altering any hash of a validating proof makes validation
-    fail (up to collisions) -/
+    same hashes, or a hash256 collision is exhibited between the strings hashed while parsing the one and the
+    other — altering any hash of a validating proof makes validation fail (up to exhibited collisions) -/
 theorem bip37_altered_hash (H : Bytes → Bytes) (hH : ∀ b, (H b).length = 32) (total : Nat) (hn : 0 < total)
     (flagBits : List Bool) (hashes hashes' : List Bytes)
     (hl : ∀ y ∈ hashes, y.length = 32) (hl' : ∀ y ∈ hashes', y.length = 32) (r : Bytes) (p p' : List Bytes)
     (h : populate H total flagBits hashes = .done r p) (h' : populate H total flagBits hashes' = .done r p') :
-    hashes = hashes' ∨ Collision H :=
-  populate_hashes_determined H hH total hn (tree_depth_ceil_log2 total hn) flagBits hashes hashes' hl hl' r p p' h h'
+    hashes = hashes' ∨
+      CollisionBetween H (extractPre H (ceilLog2 total) total flagBits hashes) (extractPre H (ceilLog2 total) total flagBits hashes') := by
+  have := populate_hashes_determined H hH total hn (tree_depth_ceil_log2 total hn) flagBits hashes hashes' hl hl' r p p' h h'
+  rwa [tree_depth_eq_spec _ hn] at this
 
 /-- ALTERED ROOT: the computed root does not depend on the header, so a proof validates against at most one root -/
 theorem bip37_altered_root (H : Bytes → Bytes) (root root' : Bytes) (total : Nat) (hashes : List Bytes) (flags : Bytes)
@@ -294,6 +306,7 @@ example : ([0xff, 0xff, 0x00, 0x1d] : Bytes).length = 4 ∧ 3 ≤ leToNat [0xff,
 example : (setCompact 0x1d00ffff).overflow = false ∧ (setCompact 0x1d00ffff).value * 4838400 < 2 ^ 256 ∧
     2 ^ 16 * 1209600 ≤ (setCompact 0x1d00ffff).value * 302400 := by decide
 example : IsCeilLog2 5 3 ∧ IsCeilLog2 1 0 := ⟨⟨by decide, Or.inr (by decide)⟩, ⟨by decide, Or.inl rfl⟩⟩
+example : ∃ H : Bytes → Bytes, ∀ b, (H b).length = 32 := ⟨fun _ => List.replicate 32 0, fun _ => by simp⟩
 example : ([[1], [2], [3]] : List Bytes) ≠ [] ∧ ([true, false, true] : List Bool).length = ([[1], [2], [3]] : List Bytes).length := by decide
 
 end Buidl.Props.C17
